@@ -135,7 +135,11 @@ func c12Scenarios(tier string) []*Scenario {
 		}
 		if R == 0 {
 			out = append(out, c12Redial(bound))
-			out = append(out, c12ConcurrentDials(bound))
+			cb := bound
+			if cb > 4 {
+				cb = 4 // two dialling goroutines: the unbounded space does not finish (2.1e7 executions in 40 min)
+			}
+			out = append(out, c12ConcurrentDials(cb))
 			for _, extraA := range []string{"dup-success", "late-fail", "none"} {
 				for _, kindB := range []string{"silent", "success", "fail"} {
 					out = append(out, c12TwoConns(extraA, kindB, bound))
